@@ -287,7 +287,12 @@ class C20:
                             and (self.B_flag(w, cls, fi) != 'kwperm' or os.environ.get('VERIF_C20_KWORDER') != '1'):
                         pyfail.append('the key of class %d is not the key this class had on another instance' % cls)
                     c0, f0 = w.count[0], w.forced[0]
-                    r = g(*a, **k)
+                    try:
+                        r = g(*a, **k)
+                    except Exception as e:      # the property promises a value for every call
+                        pyfail.append('call %d of class %d raised %s: %s' % (len(trace), cls, type(e).__name__, e))
+                        observed.append(['raised', type(e).__name__])
+                        break
                     ran, forced = w.count[0] - c0, w.forced[0] - f0
                     v = w.vid(r)
                     if ran not in (0, 1):
@@ -406,6 +411,13 @@ class C20:
                 ops.append(['call', i, b + 100 * t, rng.choice(ok)])
         return ops
 
+    def _okform(self, b, fi):
+        """form index fi of base b, unless that form is a keyword/dict-order permutation (D18) and those are off"""
+        forms = self._B[b]
+        if forms[fi % len(forms)][2] == 'kwperm' and os.environ.get('VERIF_C20_KWORDER') != '1':
+            return 0
+        return fi % len(forms)
+
     def _pick_max(self, rng):
         s = sorted(self._sizes.values())
         typical = s[len(s) // 2]
@@ -425,7 +437,7 @@ class C20:
         both = os.environ.get('VERIF_C20_KWORDER') == '1'
         cases = []
         maxlen = 12 if tier == 'quick' else 40
-        reps = 3 if tier == 'quick' else 14
+        reps = 5 if tier == 'quick' else 14
         s = sorted(self._sizes.values())
         typical = s[len(s) // 2]
         maxes = [ONE_GIGABYTE, 0, s[0] - 1, typical + 10, 2 * typical + 20, 3 * typical + 30]
@@ -439,10 +451,10 @@ class C20:
                             ops = self._history(rng, first, maxlen, both)
                             cases.append(self.rerun({'ops': ops, 'tags': ['combo']}))
         # scripted scenarios of the property text, on random classes
-        for _ in range(40 if tier == 'quick' else 400):
+        for _ in range(100 if tier == 'quick' else 400):
             ops = self._scenario(rng)
             cases.append(self.rerun({'ops': ops, 'tags': ['scenario']}))
-        for _ in range(250 if tier == 'quick' else 2500):
+        for _ in range(600 if tier == 'quick' else 2500):
             ops = self._history(rng, None, maxlen, both)
             cases.append(self.rerun({'ops': ops, 'tags': ['random']}))
         return cases
@@ -454,7 +466,7 @@ class C20:
         if kind == 'persist':
             o = {'persistent': True, 'key': None, 'lazy': False, 'max_size': ONE_GIGABYTE, 'folder': 1}
             return [['new', o], ['call', 0, a, 0], ['call', 0, b, 0], ['new', dict(o, via='decorator')],
-                    ['call', 1, a, 1], ['call', 1, c, 0], ['new', o], ['call', 2, c, 0], ['call', 2, b, 0],
+                    ['call', 1, a, self._okform(a, 1)], ['call', 1, c, 0], ['new', o], ['call', 2, c, 0], ['call', 2, b, 0],
                     ['clear', 2], ['call', 2, a, 0], ['call', 0, a, 0]]
         if kind == 'clear':
             o = {'persistent': rng.random() < 0.5, 'key': None, 'lazy': False, 'max_size': ONE_GIGABYTE, 'folder': 0}
